@@ -132,6 +132,9 @@ int main() {
         iv.set_ionic_fraction(ION_H_n, dbl(w[5 + 3 * k]));
         iv.set_ionic_fraction(ION_He_n, dbl(w[6 + 3 * k]));
       }
+      // the counters accumulate over the packets that follow (until the next cells line)
+      for (int_fast32_t c = 0; c < ntot; ++c)
+        grid->_ionization_variables[c].reset_mean_intensities();
       std::cout << "cells " << m << "\n";
     } else if ((w[0] == "pkt" || w[0] == "prp" || w[0] == "cod") && w.size() == 16 && grid) {
       // 0: interact, 1: propagate, 2: compute_optical_depth
@@ -149,8 +152,17 @@ int main() {
       }
       // ion used for the "other ion" estimator and ion with unit cross section (path probe)
       const int ionX = 2, ionP = NUMBER_OF_IONNAMES - 1;
-      for (int_fast32_t c = 0; c < ntot; ++c)
-        grid->_ionization_variables[c].reset_mean_intensities();
+      // snapshot of all counters before the call (they are NOT reset between packets: every
+      // increment lands on what the earlier packets of the group left behind)
+      const int NCTR = NUMBER_OF_IONNAMES + NUMBER_OF_HEATINGTERMS;
+      std::vector< double > before((size_t)ntot * NCTR);
+      for (int_fast32_t c = 0; c < ntot; ++c) {
+        const IonizationVariables &iv = grid->_ionization_variables[c];
+        for (int ion = 0; ion < NUMBER_OF_IONNAMES; ++ion)
+          before[(size_t)c * NCTR + ion] = iv.get_mean_intensity(ion);
+        for (int h = 0; h < NUMBER_OF_HEATINGTERMS; ++h)
+          before[(size_t)c * NCTR + NUMBER_OF_IONNAMES + h] = iv.get_heating(h);
+      }
       visit_log.clear();
       PhotonPacket photon;
       photon.set_position(CoordinateVector<>(p0[0], p0[1], p0[2]));
@@ -193,10 +205,14 @@ int main() {
       for (size_t i = 0; i < visit_log.size(); ++i) {
         const int_fast32_t c = visit_log[i].cell;
         const IonizationVariables &iv = grid->_ionization_variables[c];
-        const double pth = iv.get_mean_intensity(ionP) / weight;
+        // path and increments: what update_intensity_counters handed to the tracker; counters:
+        // what the cell holds after the packet
+        const double pth = visit_log[i].absorption[ionP] / weight;
         path[c] = pth;
         ++nvisit[c];
-        ans << " v " << c << " " << showF(pth) << " " << showF(iv.get_mean_intensity(ION_H_n))
+        ans << " v " << c << " " << showF(pth) << " " << showF(visit_log[i].absorption[ION_H_n])
+            << " " << showF(visit_log[i].absorption[ION_He_n]) << " "
+            << showF(visit_log[i].absorption[ionX]) << " " << showF(iv.get_mean_intensity(ION_H_n))
             << " " << showF(iv.get_mean_intensity(ION_He_n)) << " "
             << showF(iv.get_mean_intensity(ionX)) << " " << showF(iv.get_heating(HEATINGTERM_H))
             << " " << showF(iv.get_heating(HEATINGTERM_He));
@@ -225,35 +241,55 @@ int main() {
         bad << " counters-touched-without-interaction";
       // (e) estimators: exactly what the code is documented to add, nothing elsewhere, one
       // visit per cell
+      std::vector< const double * > absorbed(ntot, nullptr);
+      for (size_t i = 0; i < visit_log.size(); ++i)
+        absorbed[visit_log[i].cell] = visit_log[i].absorption;
       for (int_fast32_t c = 0; c < ntot; ++c) {
         const IonizationVariables &iv = grid->_ionization_variables[c];
+        const double *bf = &before[(size_t)c * NCTR];
         if (nvisit[c] > 1)
           bad << " cell-visited-twice(cell=" << c << ")";
         if (nvisit[c] == 0) {
           bool any = false;
           for (int ion = 0; ion < NUMBER_OF_IONNAMES; ++ion)
-            any = any || iv.get_mean_intensity(ion) != 0.;
+            any = any || iv.get_mean_intensity(ion) != bf[ion];
           for (int h = 0; h < NUMBER_OF_HEATINGTERMS; ++h)
-            any = any || iv.get_heating(h) != 0.;
+            any = any || iv.get_heating(h) != bf[NUMBER_OF_IONNAMES + h];
           if (any)
-            bad << " estimator-of-unvisited-cell-changed(cell=" << c << ")";
+            bad << (mode == 0 ? " estimator-of-unvisited-cell-changed(cell="
+                              : " counters-touched-without-interaction(cell=")
+                << c << ")";
           continue;
         }
-        const double pw = iv.get_mean_intensity(ionP); // path * weight
+        const double *ab = absorbed[c];
+        const double pw = ab[ionP]; // path * weight
         auto close = [](double a, double b) {
           return std::fabs(a - b) <= 1.e-12 * std::max(std::fabs(a), std::fabs(b));
         };
-        bool ok = close(iv.get_mean_intensity(ION_H_n), pw * sH) &&
-                  close(iv.get_mean_intensity(ION_He_n), pw * sHe) &&
-                  close(iv.get_heating(HEATINGTERM_H), pw * sH * (nu - 3.288e15)) &&
-                  close(iv.get_heating(HEATINGTERM_He), pw * sHe * (nu - 5.948e15));
+        // the increments are weight * sigma * path (and * (nu - nu0) for heating) ...
+        bool ok = close(ab[ION_H_n], pw * sH) && close(ab[ION_He_n], pw * sHe);
         for (int ion = 0; ion < NUMBER_OF_IONNAMES; ++ion) {
           if (ion == ION_H_n || ion == ION_He_n || ion == ionP)
             continue;
-          ok = ok && close(iv.get_mean_intensity(ion), pw * std::ldexp(sX, ion - ionX));
+          ok = ok && close(ab[ion], pw * std::ldexp(sX, ion - ionX));
         }
         if (!ok)
           bad << " estimator-increment-not-weight*sigma*path(cell=" << c << ")";
+        // ... and every counter holds exactly its old value plus its increment
+        bool acc = true;
+        for (int ion = 0; ion < NUMBER_OF_IONNAMES; ++ion)
+          acc = acc && iv.get_mean_intensity(ion) == bf[ion] + ab[ion];
+        if (!acc)
+          bad << " counter-is-not-old-value-plus-increment(cell=" << c << ")";
+        auto closeh = [](double after, double bef, double inc) {
+          return std::fabs((after - bef) - inc) <=
+                 1.e-12 * (std::fabs(after) + std::fabs(bef) + std::fabs(inc));
+        };
+        if (!(closeh(iv.get_heating(HEATINGTERM_H), bf[NUMBER_OF_IONNAMES + HEATINGTERM_H],
+                     pw * sH * (nu - 3.288e15)) &&
+              closeh(iv.get_heating(HEATINGTERM_He), bf[NUMBER_OF_IONNAMES + HEATINGTERM_He],
+                     pw * sHe * (nu - 5.948e15))))
+          bad << " heating-counter-is-not-old-value-plus-weight*sigma*path*(nu-nu0)(cell=" << c << ")";
       }
       // reference: chord of the ray start + t*dir (t >= 0) in every cell, slab method
       int_fast32_t first_cell = mode != 0 ? start_cell_nopin : (visit_log.empty() ? -1 : visit_log[0].cell);
